@@ -30,7 +30,7 @@ impl LoopState {
         iter: ValueIter,
         depth: usize,
         with_loop_var: bool,
-        recurse_jump_target: Option<u32>,
+        recurse_jump_target: Option<(usize, u32)>,
         current_recursion_jump: Option<(u32, bool)>,
     ) -> LoopState {
         // for an iterator where the lower and upper bound are matching we can
@@ -116,7 +116,9 @@ pub(crate) struct Loop {
     pub idx: AtomicUsize,
     pub depth: usize,
     pub last_changed_value: Mutex<Option<Vec<Value>>>,
-    pub recurse_jump_target: Option<u32>,
+    // the instructions the loop belongs to (by address) and the offset of
+    // the loop in them.
+    pub recurse_jump_target: Option<(usize, u32)>,
     #[cfg(feature = "adjacent_loop_items")]
     iter: Mutex<AdjacentLoopItemIterWrapper>,
 }
